@@ -448,13 +448,13 @@ theorem pd_eq_of_reads {c : List Block} {b : Nat} {blk : Block} (hb : c[b]? = so
 records from, `d'` the database as committed so far (pruned below `Fc`), `acc` the point deletes
 pending since then. After any number `k` of the remaining batches the image is that of a prune
 that stopped at some floor `F` — and after all of them `F` is the target. -/
-theorem sweep_images {W lag thr : Nat} {c : List Block} (hwf : WfChain c) {d0 : Disk} {F0 : Nat}
+theorem sweep_images {W lag : Nat} {cut : Nat → List Write → Bool} {c : List Block} (hwf : WfChain c) {d0 : Disk} {F0 : Nat}
     (hreads : ∀ x, F0 ≤ x → x < c.length → getBlk d0 (.su x) = c[x]? ∧ getBlk d0 (.txs x) = c[x]?) :
     ∀ (cnt b : Nat) (prev : Option Nat) (acc : List Write) (Fc : Nat) (d' : Disk) (bs : List (List Write)),
       F0 ≤ Fc → Fc ≤ b → b + cnt ≤ c.length →
       prev = (if b = 0 then none else (c[b - 1]?).map (·.hash)) →
       acc = pdsN c Fc (b - Fc) → PCoh lag c Fc d' →
-      pruneSweep W lag d0 thr cnt b prev acc = some bs →
+      pruneSweep W lag d0 cut cnt b prev acc = some bs →
       ∀ k, k ≤ bs.length → ∃ F, Fc ≤ F ∧ F ≤ b + cnt ∧
         PCoh lag c F (applyCommits d' (bs.take k)) ∧ (k = bs.length → F = b + cnt) := by
   intro cnt
@@ -489,7 +489,7 @@ theorem sweep_images {W lag thr : Nat} {c : List Block} (hwf : WfChain c) {d0 : 
     rw [hacc'] at hs
     split at hs
     · -- the batch is committed with the range delete for the blocks it covers
-      cases hrest : pruneSweep W lag d0 thr cnt (b + 1) (some (c[b]).hash) [] with
+      cases hrest : pruneSweep W lag d0 cut cnt (b + 1) (some (c[b]).hash) [] with
       | none => rw [hrest] at hs; simp at hs
       | some rest =>
         rw [hrest] at hs
@@ -556,14 +556,14 @@ theorem oldestRetained_pcoh {lag : Nat} {c : List Block} {F0 : Nat} {d : Disk} (
 cut after ANY number `k` of its batches (a crash after the k-th batch, or the failure of the
 (k+1)-th): the image is that of a prune that stopped at a floor `F` with `F0 ≤ F ≤ e` — every
 block from `F` on fully present, every block below fully absent up to the two carve-outs — and
-after all batches `F = e`. For every batch-size threshold `thr`. -/
-theorem prune_images {W thr : Nat} {c : List Block} (hwf : WfChain c) {n : Node} {F0 e : Nat}
+after all batches `F = e`. For every rotation decision `cut`. -/
+theorem prune_images {W : Nat} {cut : Nat → List Write → Bool} {c : List Block} (hwf : WfChain c) {n : Node} {F0 e : Nat}
     (hp : PCoh blockHashLag c F0 n.disk) (hF0 : F0 < e) (he : e ≤ c.length) (k : Nat) :
-    (prunePlanThr W n e thr).disk0 = n.disk ∧
+    (prunePlanThr W n e cut).disk0 = n.disk ∧
     ∃ F, F0 ≤ F ∧ F ≤ e ∧
-      PCoh blockHashLag c F (applyCommits n.disk ((prunePlanThr W n e thr).commits.take k)) ∧
-      ((prunePlanThr W n e thr).commits.length ≤ k → F = e) ∧
-      (prunePlanThr W n e thr).out = .ok := by
+      PCoh blockHashLag c F (applyCommits n.disk ((prunePlanThr W n e cut).commits.take k)) ∧
+      ((prunePlanThr W n e cut).commits.length ≤ k → F = e) ∧
+      (prunePlanThr W n e cut).out = .ok := by
   have hlen : c.length ≠ 0 := by omega
   have hh : getHeight n.disk = some (c.length - 1) := by rw [hp.height]; simp [hlen]
   have hor : oldestRetained n.disk (c.length - 1 + 1) 0 = some F0 := by
@@ -586,13 +586,13 @@ theorem prune_images {W thr : Nat} {c : List Block} (hwf : WfChain c) {n : Node}
     have : ¬ x < F0 := by omega
     simp [getBlk, hp.su, hp.txs, this, hx]
   have hnot : ¬ F0 ≥ e := by omega
-  cases hsw : pruneSweep W blockHashLag n.disk thr (e - F0) F0
+  cases hsw : pruneSweep W blockHashLag n.disk cut (e - F0) F0
       (if F0 = 0 then none else (c[F0 - 1]?).map (·.hash)) [] with
   | none =>
     -- impossible: the sweep only fails on a missing record
     exfalso
     have key : ∀ (cnt b : Nat) (prev : Option Nat) (acc : List Write), F0 ≤ b → b + cnt ≤ c.length →
-        pruneSweep W blockHashLag n.disk thr cnt b prev acc ≠ none := by
+        pruneSweep W blockHashLag n.disk cut cnt b prev acc ≠ none := by
       intro cnt
       induction cnt with
       | zero => intro b prev acc _ _; simp [pruneSweep]
@@ -604,13 +604,13 @@ theorem prune_images {W thr : Nat} {c : List Block} (hwf : WfChain c) {n : Node}
         simp only [pruneSweep, r1, r2]
         split
         · intro h
-          cases hr : pruneSweep W blockHashLag n.disk thr cnt (b + 1) (some (c[b]).hash) [] with
+          cases hr : pruneSweep W blockHashLag n.disk cut cnt (b + 1) (some (c[b]).hash) [] with
           | none => exact ih _ _ _ (by omega) (by omega) hr
           | some x => rw [hr] at h; simp at h
         · exact ih _ _ _ (by omega) (by omega)
     exact key _ _ _ _ (Nat.le_refl _) (by omega) hsw
   | some bs =>
-    have hpl : prunePlanThr W n e thr = ⟨n.disk, bs, n.mem, .ok⟩ := by
+    have hpl : prunePlanThr W n e cut = ⟨n.disk, bs, n.mem, .ok⟩ := by
       simp only [prunePlanThr, hh, hor, hnot, if_false, hprev, hsw]
     rw [hpl]
     refine ⟨rfl, ?_⟩
@@ -631,32 +631,35 @@ theorem prune_images {W thr : Nat} {c : List Block} (hwf : WfChain c) {n : Node}
 
 /-- The same through `exec`: any fault during `PruneUpto(e)`. -/
 theorem prune_exec_images {W : Nat} (fx : Fixes) {c : List Block} (hwf : WfChain c) {n : Node} {F0 e : Nat}
-    (hp : PCoh blockHashLag c F0 n.disk) (hF0 : F0 < e) (he : e ≤ c.length) (ft : Fault) :
+    (hp : PCoh blockHashLag c F0 n.disk) (hF0 : F0 < e) (he : e ≤ c.length) (ft : Fault)
+    (hb : ft ≠ .failInit ∧ ft ≠ .crashInit) :
     ∃ F, F0 ≤ F ∧ F ≤ e ∧ PCoh blockHashLag c F (exec W fx n (.prune e) ft).1.disk ∧
       (ft = .none → F = e ∧ (exec W fx n (.prune e) ft).2 = .ok) := by
-  have hpl : plan W fx n (.prune e) = prunePlanThr W n e 1 := rfl
+  have hpl : plan W fx n (.prune e) = prunePlanThr W n e cutNonEmpty := rfl
   cases ft with
+  | failInit => exact absurd rfl hb.1
+  | crashInit => exact absurd rfl hb.2
   | none =>
-    obtain ⟨h0, F, h1, h2, h3, h4, h5⟩ := prune_images (W := W) (thr := 1) hwf hp hF0 he
-      (prunePlanThr W n e 1).commits.length
+    obtain ⟨h0, F, h1, h2, h3, h4, h5⟩ := prune_images (W := W) (cut := cutNonEmpty) hwf hp hF0 he
+      (prunePlanThr W n e cutNonEmpty).commits.length
     refine ⟨F, h1, h2, ?_, fun _ => ⟨h4 (Nat.le_refl _), ?_⟩⟩
     · simp only [exec, hpl, h0]
       rw [List.take_length] at h3; exact h3
     · simp only [exec, hpl]; exact h5
   | failAt k =>
     by_cases hk : k < (plan W fx n (.prune e)).commits.length
-    · obtain ⟨h0, F, h1, h2, h3, _, _⟩ := prune_images (W := W) (thr := 1) hwf hp hF0 he k
+    · obtain ⟨h0, F, h1, h2, h3, _, _⟩ := prune_images (W := W) (cut := cutNonEmpty) hwf hp hF0 he k
       refine ⟨F, h1, h2, ?_, fun h => by cases h⟩
       rw [exec_failAt_lt hk]
       simp only [hpl, h0]; exact h3
-    · obtain ⟨h0, F, h1, h2, h3, _, _⟩ := prune_images (W := W) (thr := 1) hwf hp hF0 he
-        (prunePlanThr W n e 1).commits.length
+    · obtain ⟨h0, F, h1, h2, h3, _, _⟩ := prune_images (W := W) (cut := cutNonEmpty) hwf hp hF0 he
+        (prunePlanThr W n e cutNonEmpty).commits.length
       refine ⟨F, h1, h2, ?_, fun h => by cases h⟩
       rw [exec_failAt_ge hk]
       simp only [exec, hpl, h0]
       rw [List.take_length] at h3; exact h3
   | crashAfter k =>
-    obtain ⟨h0, F, h1, h2, h3, _, _⟩ := prune_images (W := W) (thr := 1) hwf hp hF0 he (k + 1)
+    obtain ⟨h0, F, h1, h2, h3, _, _⟩ := prune_images (W := W) (cut := cutNonEmpty) hwf hp hF0 he (k + 1)
     refine ⟨F, h1, h2, ?_, fun h => by cases h⟩
     simp only [exec, hpl, h0]; exact h3
 
